@@ -42,7 +42,7 @@ TEXT.update({
             "digit-walking APIs are split by resolution field (0-2 quick, 0-5 and 15 thorough); k<=1; sets <= 4 words; APIs that reach trigonometry / the FP boundary code are not covered beyond their integer prefixes (C02/C03/C08/C19 jobs)."),
     "C14": ("gridPathCellsSize == gridDistance+1 with identical error behaviour, gridPathCells writes exactly out[0..distance] in order, stops at the failing step and never writes beyond the announced size (glue, any component results, distance <= 3); a=b and every neighbour pair succeed with the path {a} / {a,b} end to end (res 0 quick, 0-3 thorough).",
             "contiguity and end point for distance >= 2 are NOT decided: the floating-point interpolation kernel (symbolic x symbolic multiplication) gave no verdict on any back end."),
-    "C16": ("the memory clauses only: call protocol of cellsToLinkedMultiPolygon (graph destroyed exactly once on every path, partial result released and error returned when normalisation fails), destroyLinkedMultiPolygon frees every block of every result shape up to 2x2x2, h3SetToVertexGraph releases its graph when a boundary fails (thorough).",
+    "C16": ("the memory clauses only: call protocol of cellsToLinkedMultiPolygon (graph destroyed exactly once on every path, partial result released and error returned when normalisation fails), destroyLinkedMultiPolygon frees every block of every result shape up to 2x2x2, normalizeMultiPolygon followed by destroy leaks nothing and trips no internal assert for 2-3 loops.",
             "every geometric clause (components, orientation, closure, provenance, area) is NOT decided: needs real cell boundaries (trig) and point-in-loop tests (symbolic FP division)."),
     "C17": ("the allocator is the harness' H3_ALLOC_PREFIX shim whose failure schedule is a symbolic bit per allocation: one query covers every failure point of every input in the bound. Obligations: failure => E_MEMORY_ALLOC, nothing left allocated on any path, no double free (CBMC free preconditions), E_MEMORY_ALLOC only on failure, full result when nothing fails.",
             "compactCells 3 arbitrary words; areNeighborCells / gridDisk / gridDiskDistances k=1 on every cell of res 0-1 (0-3 thorough); experimental polyfill on triangles with 0-1 hole under over-approximated geometry, <= 3 geometry evaluations. Legacy polygonToCells (flood fill) is outside."),
